@@ -37,6 +37,17 @@ def gen_logits(rng, T, C, labels, peaky):
     return L
 
 
+def translate(ctx):
+    """window border and end sentinel of get_line_confidence -> Generated/Confidence.lean (obligations C16.cfg_nextBorder / cfg_sentinel)"""
+    from translator import confidence
+    from translator.pyexpr import Unsupported
+    try:
+        confidence.write(common.REPO, common.LEAN)
+        ctx.cov['translated'] = ['confidence_estimation.py:get_line_confidence (next_border, sentinel) -> Generated/Confidence.lean']
+    except (Unsupported, SyntaxError, OSError) as e:
+        ctx.brk('translator:confidence', repr(e))
+
+
 def run(ctx):
     from scipy import sparse
     from pero_ocr.core import confidence_estimation as ce
